@@ -1,5 +1,6 @@
 import GrcovModel.Drv.Merge
 import GrcovModel.Drv.Lcov
+import GrcovModel.Drv.Pipeline
 open Grcov.Drv
 
 def step (line : String) : String :=
@@ -8,6 +9,8 @@ def step (line : String) : String :=
   | "addresults" :: args => handleAddResults args
   | "lcov.parse" :: args => handleLcovParse args
   | "utf8lossy" :: args => handleUtf8Lossy args
+  | "pipe.replay" :: args => handlePipeReplay args
+  | "pipe.stuck" :: args => handlePipeStuck args
   | _ => "bad-op"
 
 partial def loop (h : IO.FS.Stream) (out : IO.FS.Stream) : IO Unit := do
